@@ -5,6 +5,7 @@ set -u
 ID=$1; M=$2
 export GOFLAGS=-mod=mod GOPROXY=off GOSUMDB=off GOTOOLCHAIN=local
 SRC=${SEEDSRC:-/tmp/seedout}/$ID/$M
+[ -d $SRC ] || SRC=/verif/seeded/$ID-$M
 WT=/tmp/wt/demo-$ID-$M
 git -C /repo worktree remove --force $WT 2>/dev/null
 git -C /repo worktree add -q $WT HEAD || exit 2
